@@ -7,6 +7,7 @@ CONSTANTS
   Acts = {"Alloc", "Unroot", "Spawn", "Collect", "Push", "Pop"}
   TwoVMs = FALSE
   Emit = FALSE
+  Traps = {}
   Mutant = "norooted"
 VIEW View
 INVARIANTS TypeOK Isolation NoDangling
